@@ -74,7 +74,7 @@ void harness(void)
     VF_ASSUME(c >= -1 && c <= EAV_RFC_6531);
     e.rfc = nondet_int(); e.tld_check = nondet_bool(); e.allow_tld = nondet_int();
     e.errcode = nondet_int();
-    e.idnmsg = nondet_bool() ? cb_idn_message : NULL;
+    e.idnmsg = nondet_bool() ? (nondet_bool() ? cb_idn_message : cb_idn_message2) : NULL;
     eav_result_t *old = NULL;
     if (nondet_bool()) {
         old = malloc(sizeof *old);
@@ -142,7 +142,7 @@ void harness(void)
                   e.result->is_ipv4 == f.result->is_ipv4 && e.result->is_ipv6 == f.result->is_ipv6, "C13: result fields equal a fresh object's");
         VF_ASSERT(ret == expect_accept(e.result->rc, e.allow_tld), "C08: decision follows rc and the current allow_tld");
         { const char *ma = eav_errstr(&e), *mb = eav_errstr(&f);
-          VF_ASSERT(ma == mb || (CB_IS_IDN_MESSAGE(ma) && CB_IS_IDN_MESSAGE(mb)), "C13: message equals a fresh object's (no stale IDN message)"); }
+          VF_ASSERT(ma == mb || (CB_IS_IDN_MESSAGE(ma) && cb_same_text(ma, mb)), "C13: message equals a fresh object's (no stale IDN message)"); }
         VF_COVER(prev_idn != NULL && ret == 1, "accept-after-idn-error");
         eav_free(&f);
         VF_FORGET(cb_last_result);
